@@ -593,6 +593,9 @@ def run(cx, rep):
     # ---------------------------------------------------------------- C02.15
     rep.rule("C02.15", "the canonical rendering that decides whether two schemas are equal keeps the order of arrays")
     canonical_json_rule(mod, rep, "C02.15")
+    # ---------------------------------------------------------------- C02.21
+    rep.rule("C02.21", "a discriminator key is turned back into the literal it was read from (key extractor and key -> literal constructor are inverse)")
+    key_literal_inverse_rule(cx, rep, "C02.21")
     # ---------------------------------------------------------------- C02.12
     rep.rule("C02.12", "the schema table of a discriminated union narrows each variant to its key")
     disc_schema_table_rule(cx, rep, "C02.12")
@@ -1044,3 +1047,112 @@ def optional_null_branch_rule(fam, mod, rep, rid):
                    "%s.schema() has a return that is not a union with a `{type: 'null'}` branch (`%s`): the object class recognises an optional property by that branch, so the key stays in `required` and a document that omits the property - accepted by the validator - is invalid against the schema" % (nm, s(a)[:50]),
                    mod.loc(r), sample={"class": nm})
     rep.floor(rid, "returns of the optional-field wrapper's schema()", n, 1)
+
+
+def _variant_defs(nodes, pattern):
+    out = set()
+    for x in nodes:
+        if pattern and x["k"] in ("P.TupleStruct", "P.Struct", "P.Expr") and "Ctor(Variant" in (x.get("defkind") or "") + ("Ctor(Variant" if "::" in (x.get("def") or "") and x["k"] == "P.Struct" else ""):
+            out.add(x["def"])
+        if not pattern and x["k"] == "Path" and "Ctor(Variant" in (x.get("defkind") or ""):
+            out.add(x["def"])
+        if not pattern and x["k"] == "Struct" and (x.get("def") or "").count("::") >= 1:
+            out.add(x["def"])
+    return {d for d in out if d and not d.startswith("std::")}
+
+
+def key_literal_inverse_rule(cx, rep, rid):
+    """The dispatch table of a discriminated union is keyed by STRINGS read off the members' literal types, and the
+    schema table narrows each variant's discriminator back to a literal TYPE built from the key.  Both tables describe
+    the same values only if the two conversions are inverse: an extractor that also yields keys for other kinds of
+    literal (the decimal form of a number) makes the rebuilt type a string literal where the validator expects the
+    number - schemaWithContext() then prints `version: "1"` for a type whose validator demands 1.
+    Decided over the printer functions around the builder of the discriminated form (its callers, their closures and
+    private helpers): E = the functions Runtype -> Option<String> they call, N = the functions &str -> Runtype they
+    call; every enum variant matched on a path of an E that yields `Some` is a variant some N constructs."""
+    F = cx.rs
+    from facts import walk as hwalk, walk_inlined
+    cluster = [g for g, t in F.hir.items() if F.fns.get(g) is not None and "/src/print/" in (F.fns[g].file or "")]
+    def sig(g):
+        f = F.fns.get(g)
+        return (tuple(f.inputs or ()), f.output or "") if f is not None else ((), "")
+    Es, Ns = {}, {}
+    for g in cluster:
+        f = F.fns[g]
+        for n in hwalk(F.hir[g]["body"]):
+            if n["k"] not in ("Call", "MethodCall"):
+                continue
+            cal = n.get("callee") if n["k"] == "Call" else (n.get("resolved") or n.get("callee"))
+            tg = F._callee_gid(f.crate, cal or "")
+            if tg not in F.hir:
+                continue
+            ins, out = sig(tg)
+            if len(ins) == 1 and ins[0].endswith("ast::runtype::Runtype") and ins[0].startswith("&") and out == "std::option::Option<std::string::String>":
+                Es.setdefault(tg, []).append((g, n.get("line")))
+            if len(ins) == 1 and ins[0] == "&str" and out.endswith("ast::runtype::Runtype"):
+                Ns.setdefault(tg, []).append((g, n.get("line")))
+    rep.floor(rid, "key extractors (Runtype -> Option<String>) used by the printer", len(Es), 1)
+    if not Ns:
+        return
+    built = set()
+    for ng in Ns:
+        built |= _variant_defs([x for x, _o in walk_inlined(F, ng, depth=2)], pattern=False)
+    def some_variants(g, depth=2, seen=None):
+        """variants matched on a path of g that can yield Some"""
+        seen = seen or {g}
+        t = F.hir.get(g)
+        out = set()
+        if t is None:
+            return out
+        crate = F.fns[g].crate if g in F.fns else None
+        def yields_some(body):
+            for x in hwalk(body):
+                if x["k"] == "Call" and (x.get("callee") or "").endswith("::Some"):
+                    return True
+                if x["k"] in ("Call", "MethodCall"):
+                    cal = x.get("callee") if x["k"] == "Call" else (x.get("resolved") or x.get("callee"))
+                    tg = F._callee_gid(crate, cal or "")
+                    if tg in F.hir and sig(tg)[1].startswith("std::option::Option<") :
+                        return True
+                    if (cal or "").startswith("std::option::Option") and x["k"] == "MethodCall" and x.get("method") in ("map", "and_then", "filter", "cloned", "or_else", "or"):
+                        return True
+            return False
+        def visit(n, ctx_vars):
+            if n["k"] == "Match":
+                for a in n["arms"]:
+                    vs = _variant_defs(list(hwalk(a["pat"])), pattern=True)
+                    if yields_some(a["body"]):
+                        out.update(ctx_vars | vs)
+                    visit_children(a["body"], ctx_vars | vs)
+                return
+            if n["k"] == "If" and n["cond"]["k"] == "Let":
+                vs = _variant_defs(list(hwalk(n["cond"]["pat"])), pattern=True)
+                if yields_some(n["then"]):
+                    out.update(ctx_vars | vs)
+                visit_children(n["then"], ctx_vars | vs)
+                if n.get("else"):
+                    visit_children(n["else"], ctx_vars)
+                return
+            visit_children(n, ctx_vars)
+        def visit_children(n, ctx_vars):
+            from facts import children
+            for c in children(n):
+                visit(c, ctx_vars)
+        visit(t["body"], set())
+        if depth > 0:
+            for x in hwalk(t["body"]):
+                if x["k"] in ("Call", "MethodCall"):
+                    cal = x.get("callee") if x["k"] == "Call" else (x.get("resolved") or x.get("callee"))
+                    tg = F._callee_gid(crate, cal or "")
+                    if tg in F.hir and tg not in seen and sig(tg)[1] == "std::option::Option<std::string::String>":
+                        seen.add(tg)
+                        out.update(some_variants(tg, depth - 1, seen))
+        return out
+    for eg in sorted(Es):
+        vs = some_variants(eg)
+        extra = sorted(v for v in vs if v not in built)
+        site = Es[eg][0]
+        rep.ob(rid, "%s/inverse-of-key-constructor" % eg.rsplit("::", 1)[-1], not extra,
+               "the printer reads discriminator keys with %s, which yields a key for %s, but rebuilds the literal type of a key with %s, which never constructs that: a key read from such a literal is narrowed back to a DIFFERENT literal type (a string where the validator expects the number), so the schema table of the discriminated union disagrees with its dispatch table" % (
+                   eg, ", ".join(x.split("::", 2)[-1] for x in extra), " / ".join(sorted(x.rsplit("::", 1)[-1] for x in Ns))),
+               F.fns[eg].loc(), sample={"extractor": eg, "some_on_variants": sorted(x.split("::", 2)[-1] for x in vs), "constructor_builds": sorted(x.split("::", 2)[-1] for x in built)})
